@@ -111,11 +111,17 @@ static int req_of_qname(const char *qn)
 }
 
 /* ------------------------------------------------------------------ result-code oracle */
+/* A success needs a correct answer sent for this very request; CANCEL needs a user
+ * cancel; SHUTDOWN needs evdns_base_free(base, 1).  Error codes are explained by what
+ * the servers did to *any* query of the history: a reply can be taken for another
+ * request that meanwhile owns the same transaction id, and a failing nameserver
+ * (connection torn down, marked dead) affects every request that uses it. */
+static unsigned global_seen;
 static int result_explained(struct ureq *r, int result)
 {
-	unsigned s = r->seen, bad = s & ~S_OK;
+	unsigned s = global_seen, bad = s & ~S_OK;
 	if (IS_GAI(r->kind)) {
-		if (result == 0) return (s & S_OK) != 0;
+		if (result == 0) return (r->seen & S_OK) != 0;
 		if (result == EVUTIL_EAI_CANCEL) return r->cancelled;
 		if (result == EVUTIL_EAI_NONAME) return (s & S_NXDOMAIN) != 0;
 		if (result == EVUTIL_EAI_NODATA) return (s & S_NODATA) != 0;
@@ -124,7 +130,7 @@ static int result_explained(struct ureq *r, int result)
 		return 0;
 	}
 	switch (result) {
-	case DNS_ERR_NONE: return (s & S_OK) != 0;
+	case DNS_ERR_NONE: return (r->seen & S_OK) != 0;
 	case DNS_ERR_CANCEL: return r->cancelled;
 	case DNS_ERR_SHUTDOWN: return r->out_at_free && freed_fail;
 	case DNS_ERR_NOTEXIST: return (s & S_NXDOMAIN) != 0;
@@ -399,7 +405,7 @@ static void send_udp(const struct dnse_msg *m, const uint8_t *p, int len)
 	dnse_wait_readable(client_udp_fd(m->ns));
 }
 
-static void mark(int r, unsigned s) { if (r >= 0 && r < nreqs) reqs[r].seen |= s; }
+static void mark(int r, unsigned s) { global_seen |= s; if (r >= 0 && r < nreqs) reqs[r].seen |= s; }
 /* A reply whose transaction id currently belongs to an in-flight request with another
  * question (id reused after a cancel / completion) makes evdns end that request with an
  * error — allowed ("an error", DESIGN app. A, C33): note it for the result-code oracle. */
@@ -410,17 +416,16 @@ static void mark_id_owner(const uint8_t *p, int len)
 	struct request *o = inflight_by_id(rq.id, &k);
 	if (!o || dm_parse_query(o->request, (int)o->request_len, &own) < 0) return;
 	if (own.qtype != rq.qtype || !dm_name_eq(own.qname, rq.qname)) {
-		int r = req_of_qname(own.qname);
-		if (r >= 0 && r < nreqs) reqs[r].seen |= S_GARBAGE;
+		global_seen |= S_GARBAGE;
 		MC_COUNT("replies_meeting_reused_id");
 	}
 }
-/* A reply that arrives when its request is gone (second copy, late reply) may meet
- * another request that meanwhile owns the same transaction id; evdns then ends that
- * request with an error (question mismatch) — allowed: "an error" (DESIGN app. A, C33). */
+/* A reply that arrives when its request is gone (cancelled, already answered) may meet
+ * another request that owns the same transaction id by then: that request ends with an
+ * error (question mismatch / the reply's rcode) — allowed, see above. */
 static void mark_bystanders(int r)
 {
-	for (int i = 0; i < nreqs; i++) if (i != r && reqs[i].started && !reqs[i].done) reqs[i].seen |= S_GARBAGE;
+	if (r < 0 || r >= nreqs || reqs[r].done || reqs[r].cancelled) global_seen |= S_GARBAGE;
 }
 
 static void answer_udp(struct dnse_msg *m)
@@ -432,6 +437,7 @@ static void answer_udp(struct dnse_msg *m)
 		if (mc_dev_left() > 0 && mc_choose(2, 1, "ns-recovers")) { ns_mode[m->ns] = 0; beh = B_OK; mc_observe("ns%d-recovers ", m->ns); }
 	} else beh = mc_choose(B_NUDP, 1, "udp-answer");
 	mc_observe("ns%d<-%s/%d#%x:%s ", m->ns, m->q.qname, m->q.qtype, m->q.id, beh_name[beh]);
+	mark_bystanders(r);
 	if (beh != B_OK) MC_COUNT("ns_deviations");
 	switch (beh) {
 	case B_OK: len = build_reply(m, buf, sizeof buf, 0, 0, 1); send_udp(m, buf, len); mark(r, S_OK); break;
@@ -455,7 +461,7 @@ static void answer_udp(struct dnse_msg *m)
 		mc_observe("(garbage%d) ", v);
 		send_udp(m, buf, len); mark(r, S_GARBAGE | S_NOANSWER);
 		break; }
-	case B_DUP: len = build_reply(m, buf, sizeof buf, 0, 0, 1); send_udp(m, buf, len); send_udp(m, buf, len); mark(r, S_OK); mark_bystanders(r); break;
+	case B_DUP: len = build_reply(m, buf, sizeof buf, 0, 0, 1); send_udp(m, buf, len); send_udp(m, buf, len); mark(r, S_OK); global_seen |= S_GARBAGE; break;
 	case B_LATE:
 		len = build_reply(m, buf, sizeof buf, 0, 0, 1);
 		if (nlate < 8) { late[nlate].used = 1; late[nlate].ns = m->ns; late[nlate].from = m->from; memcpy(late[nlate].pkt, buf, len); late[nlate].len = len; nlate++; }
@@ -470,6 +476,7 @@ static void answer_tcp(struct dnse_msg *m)
 	if (ns_mode[m->ns] == B_SILENT) beh = T_DROP;
 	else beh = mc_choose(T_NTCP, 1, "tcp-answer");
 	mc_observe("ns%d<=tcp:%s/%d#%x:%s ", m->ns, m->q.qname, m->q.qtype, m->q.id, tbeh_name[beh]);
+	mark_bystanders(r);
 	if (beh != T_OK) MC_COUNT("ns_deviations_tcp");
 	MC_COUNT("tcp_queries");
 	len = build_reply(m, buf + 2, sizeof buf - 2, 0, 0, 1);
@@ -592,7 +599,7 @@ static void body(void)
 	dnse_ns_begin(); dnse_rng_reset(rngmode); dnse_watch_reset();
 	live0 = dnse_alloc_live();
 	memset(reqs, 0, sizeof reqs); nreqs = RS->n; nlate = 0; memset(late, 0, sizeof late);
-	memset(ns_mode, 0, sizeof ns_mode);
+	memset(ns_mode, 0, sizeof ns_mode); global_seen = 0;
 	acts_left = mc_param("acts", 1); idle_flag = 0; freed_fail = 0; in_user_cb = 0;
 	evbase = event_base_new();
 	dbase = evdns_base_new(evbase, 0);
@@ -659,7 +666,7 @@ static void body(void)
 				struct dnse_msg m; memset(&m, 0, sizeof m); m.ns = late[i].ns; m.from = late[i].from;
 				late[i].used = 0;
 				mc_observe("ns%d:late-reply ", m.ns);
-				mark_bystanders(-1);
+				global_seen |= S_GARBAGE;
 				send_udp(&m, late[i].pkt, late[i].len);
 			}
 	}
